@@ -90,6 +90,10 @@ def run_part(ctx, work, asan=False):
     hists = [json.loads(x) for x in hists]
     if not hists:
         raise MachineryError("PySeqItem: no history dumped")
+    if len(hists) > 45000:       # thorough: a fixed stratified cut of the sorted histories (independent of the seed)
+        step = -(-len(hists) // 45000)
+        ctx.notes["seqitem_sampled"] = "every %d-th of %d sorted histories" % (step, len(hists))
+        hists = hists[::step]
     name = "c02s"
     open(os.path.join(wd, "pub.h"), "w").write(pymod.PUBLISH_PRELUDE)
     open(os.path.join(wd, name + ".h"), "w").write('#pragma once\n#include "pub.h"\n' + HDR)
